@@ -369,7 +369,7 @@ class Layer(object):
                     tags = match_sources[source]
                     for tag in tags:
                         handler_key = '%s:%s'%(source,tag)
-                    self.__handlers[handler_key] = method
+                        self.__handlers[handler_key] = method
 
         # Call configure to set up options
         self.configure(options)
